@@ -50,6 +50,7 @@ struct Acc {
     small_total: u64,
     small_worst: Option<(u64, u64)>,
     empty_bad: Option<u64>,
+    re_bad: Option<f64>,
     regimes: [u64; 3],
 }
 
@@ -64,6 +65,7 @@ impl Acc {
             small_total: 0,
             small_worst: None,
             empty_bad: None,
+            re_bad: None,
             regimes: [0; 3],
         }
     }
@@ -85,6 +87,9 @@ impl Acc {
         if self.empty_bad.is_none() {
             self.empty_bad = o.empty_bad;
         }
+        if self.re_bad.is_none() {
+            self.re_bad = o.re_bad;
+        }
         for i in 0..3 {
             self.regimes[i] += o.regimes[i];
         }
@@ -95,6 +100,13 @@ impl Acc {
 fn stream_pass(b: usize, g: &[u64], only: Option<&[usize]>, seed: u64, acc: &mut Acc) {
     let mut h = Hll::with_hash(b, CtlBuildHasher::identity());
     let re = h.relative_error();
+    // the advertised error is sqrt(3 ln 2 - 1) / sqrt(m) (= 1.04 / sqrt(m)); the statistical bounds
+    // below use the formula, not the getter
+    let re_formula = (3f64 * 2f64.ln() - 1f64).sqrt() / ((1u64 << b) as f64).sqrt();
+    if ((re - re_formula) / re_formula).abs() > 1e-9 {
+        acc.re_bad = Some(re);
+    }
+    let re = re_formula;
     let mut r = FastRng::new(seed);
     if h.count() != 0 {
         acc.empty_bad = Some(h.count() as u64);
@@ -383,6 +395,9 @@ pub fn run(ctx: &Ctx) -> Report {
         let Some(acc) = &per_b[b] else { continue };
         let g = &grids[b];
         rep.config(format!("hll(b={}) seeds={} checkpoints={}", b, acc.seeds, g.len()));
+        if let Some(v) = acc.re_bad {
+            rep.violation("C03/relative_error-value", format!("hll(b={}): relative_error() = {} but sqrt(3 ln 2 - 1)/sqrt(m) = {}", b, v, (3f64 * 2f64.ln() - 1f64).sqrt() / ((1u64 << b) as f64).sqrt()), json!({"b": b, "relative_error": v}));
+        }
         if let Some(c) = acc.empty_bad {
             rep.violation("C03/empty-not-zero", format!("hll(b={}): empty sketch counts {}", b, c), json!({"b": b}));
         }
